@@ -66,6 +66,9 @@ struct Obj {
 };
 
 Arena &thread_arena();
+// what the calling OS thread is executing right now (for violation signatures and death notes)
+struct Cur { int op = -1; std::string kind, api; int tid = 0; };
+Cur &cur();
 
 struct Violation { std::string prop, sig, detail; int op; };
 
@@ -73,23 +76,22 @@ struct BFail { int bop = -1; int mode = 0; int rc = -1; int fired = 0; };  // ar
 enum { BOP_INIT = 0, BOP_ENCODE, BOP_DECODE, BOP_RECONSTRUCT, BOP_FRAGSNEEDED };
 
 struct World {
-    enum { NSLOT = 8, NOBJ = 8 };
+    enum { NSLOT = 20, NOBJ = 40 };
     std::string prop;            // property being decided by this run
     std::string tier;
     Slot slots[NSLOT];
     Obj objs[NOBJ];
-    Arena &arena = thread_arena();   // one arena per OS thread, reused across runs
     Trace trace;
     std::vector<Violation> viols;
     std::map<std::string, u64> faults, probes;
     std::string env_val; bool env_set = false;
-    int cur_op = -1; std::string cur_kind, cur_api;
     u64 steps = 0;
     u32 running_version = 0;
     size_t baseline_live = 0;
     std::set<int> dead_descs;    // destroyed and not (yet) reissued
     std::set<int> live_descs;
     bool threaded = false;
+    u64 sched_yields = 0, sched_switches = 0; std::vector<int> sched_decisions;
     bool announce = false;       // exec mode: print the op about to run, so a death can be attributed even without a callback
 
     bool judging(const char *props) const { return strstr(props, prop.c_str()) != nullptr; }
@@ -97,6 +99,10 @@ struct World {
     void fault(const std::string &k) { faults[k]++; }
     void probe(const std::string &k) { probes[k]++; }
 };
+
+// per-call leak judgement (L2/L3) needs a quiescent allocator: other threads allocate concurrently in threaded runs,
+// where only the end-of-run balance (L1) is judged
+static inline bool leaked(const World &W, size_t live0) { return !W.threaded && own::live() != live0; }
 
 // engine.cc
 void engine_global_init();
